@@ -67,6 +67,7 @@ package nsx
 // Netspoc group is bound to only one device group.
 //vc:func (*rulesPair).equalizeGroups$1
 //vc:  assert[C04] at "ga.needed = true"#2 @changedGroupWasFree !ga.needed
+//vc:  assert[C04] after "url := fmt.Sprintf(" @addressListReplacedInTheBoundGroup callresult == fmt.Sprintf("/policy/api/v1/infra/domains/default/groups/%s/ip-address-expressions/%s", ga.Id, ga.Expression[0].Id)
 //vc:  assert[C04] at "gb.nameOnDevice = ga.Id" @netspocGroupBoundOnce gb.nameOnDevice == ""
 
 // text handed to the device, a file or a log is never interpreted as a printf format
@@ -137,6 +138,7 @@ package nsx
 //vc:func (*rulesPair).writeRule
 //vc:  modifies nsxRule.Id
 //vc:  requires[C04] @ruleIdKnown r.Id != ""
+//vc:  ensures[C04] @requestGoesToThisRuleOfThisPolicy result.method == method && result.url == fmt.Sprintf("/policy/api/v1/infra/domains/default/gateway-policies/%s/rules/%s", ab.policy.Id, old(r.Id))
 //vc:  ensures[C04] r.Id == "" && (forall q *nsxRule :: { q.Id } q != r ==> q.Id == old(q.Id))
 //vc:func (*rulesPair).equalizeGroups
 //vc:  hypothesis[C04] @deviceRuleHasId ra.Id != ""
@@ -176,3 +178,17 @@ package nsx
 // C20 termination kernel: every iteration removes one header line
 //vc:func removeHeader
 //vc:  decreases[C20] 1 "for {" len(data)
+
+// ---- C04: every request names the object it is about ----
+// (fmt.Sprintf with a constant format is an uninterpreted function of its
+// operands, the same in code and contract: the clauses fix which ids go into
+// which place of the URL, for every policy, rule and group.)
+//vc:func deletePolicy
+//vc:  ensures[C04] @policyDeletedByItsId len(result) == 1 && result[0].method == "DELETE" && result[0].url == fmt.Sprintf("/policy/api/v1/infra/domains/default/gateway-policies/%s", a.Id)
+//vc:func diffPolicies$1
+//vc:  assert[C04] at ", url, postData})" @policyCreatedUnderItsId url == fmt.Sprintf("/policy/api/v1/infra/domains/default/gateway-policies/%s", b.Id)
+//vc:func (*rulesPair).diffRules$1
+//vc:  assert[C04] at ", url, nil})" @ruleDeletedByItsIdInThisPolicy url == fmt.Sprintf("/policy/api/v1/infra/domains/default/gateway-policies/%s/rules/%s", ab.policy.Id, ru.Id)
+//vc:func (*rulesPair).equalizeGroups$1$1
+//vc:  inline
+//vc:  assert[C04] after "url := fmt.Sprintf(" @addressesChangedInTheBoundGroup callresult == fmt.Sprintf("/policy/api/v1/infra/domains/default/groups/%s/ip-address-expressions/%s?action=%s", ga.Id, ga.Expression[0].Id, action)
